@@ -118,9 +118,22 @@ def invalidReference : Str → Bool → Option Str
         else some ('&' :: (body ++ [';']))
     else invalidReference rest hasDoctype
 
+/-- `content.contains(pat)` for a non-empty pattern (substring search; the patterns used are ASCII) -/
+def containsSub (pat : Str) : Str → Bool
+  | [] => pat.isEmpty
+  | c :: r => startsWith pat (c :: r) || containsSub pat r
+
+/-- the whole per-event check of `InputList::from_reader` on a Text (`isText`) or Start / Empty event:
+    `invalid_reference(&content, has_doctype)` must be `None`, then
+    `let stray = if Text { "]]>" } else { "<" }; if content.contains(stray) { Err }` -/
+def readerAccepts (isText : Bool) (content : Str) (hasDoctype : Bool) : Bool :=
+  match invalidReference content hasDoctype with
+  | some _ => false
+  | none => !containsSub (if isText then cs!"]]>" else cs!"<") content
+
 end RefCheck
 
-export RefCheck (isEntityName invalidReference)
+export RefCheck (isEntityName invalidReference readerAccepts)
 
 end Xml
 end Svgdx
